@@ -184,7 +184,10 @@ def run_task(t):
         sc.int_eq('derivative trajectory segments', 'qm.nseg', N)
         out.append(sc)
     fin = O.Scenario(ID, t['name'] + ' (exploration)', tu, s, timeout=t['timeout'], dag=D.run(tu, s.text()))
-    fin.check('path space fully explored (no cap hit, no unknown feasibility)', ex.complete, 'runs=%d unknown=%d' % (ex.runs, ex.unknown))
+    if ex.complete:
+        fin.check('path space fully explored (no cap hit, no unknown feasibility)', True)
+    else:
+        fin._rec('path space fully explored', 'explore', 'unknown', detail='runs=%d unknown=%d' % (ex.runs, ex.unknown))
     fin.check('every piece index 0..N-1 reached by some path', classes == set(range(N)), 'reached %s' % sorted(classes))
     fin.queries += ex.queries
     out.append(fin)
@@ -238,7 +241,10 @@ def run_seq(t):
                 sc.int_eq('call %d: hint == piece index' % j, 'q%d.hint' % j, i)
             out.append(sc)
         fin = O.Scenario(ID, '%s h0=%d (exploration)' % (t['name'], h0), tu, s1, timeout=t['timeout'], dag=D.run(tu, s1.text()))
-        fin.check('path space fully explored', ex.complete, 'runs=%d unknown=%d' % (ex.runs, ex.unknown))
+        if ex.complete:
+            fin.check('path space fully explored', True)
+        else:
+            fin._rec('path space fully explored', 'explore', 'unknown', detail='runs=%d unknown=%d' % (ex.runs, ex.unknown))
         fin.queries += ex.queries
         out.append(fin)
     return out
